@@ -70,6 +70,8 @@ type Trace struct {
 	Diverged  string   `json:"diverged,omitempty"` // replay of the prefix did not see the recorded choice enabled
 	Horizon   bool     `json:"horizon"`
 	Unsettled bool     `json:"unsettled"` // quiescence was not reached within the patience window
+	Snapshots int      `json:"snapshots"`
+	SettleNs  int64    `json:"settleNs"`
 }
 
 // Choices returns the chosen names.
@@ -125,6 +127,10 @@ type Options struct {
 	Fast     bool
 	MaxSteps int
 	Patience time.Duration
+	// Teardown: when the execution is over, stop controlling, wake every parked
+	// participant and fire every armed event so that leftover goroutines of the
+	// code under test can run to their end instead of leaking.
+	Teardown bool
 }
 
 // Run executes body (which spawns the participants with Go) under the choice
@@ -146,6 +152,36 @@ func Run(opt Options, prefix []string, body func(s *Sched)) *Trace {
 	s.loop(prefix)
 	if s.timer != nil {
 		s.timer.Stop()
+	}
+	if opt.Teardown {
+		cur.Store(nil)
+		s.mu.Lock()
+		threads := append([]*thread{}, s.threads...)
+		events := append([]*Event{}, s.events...)
+		s.mu.Unlock()
+		for _, t := range threads {
+			if atomic.LoadInt32(&t.state) == stParked {
+				atomic.StoreInt32(&t.state, stRunning)
+				select {
+				case t.wake <- struct{}{}:
+				default:
+				}
+			}
+		}
+		for _, e := range events {
+			if e.Enabled == nil || e.Enabled() {
+				e.Fire()
+			}
+		}
+		// leftovers must have finished or be blocked for good before the next
+		// execution starts, otherwise they would walk into its scheduler
+		deadline := time.Now().Add(2 * time.Second)
+		for time.Now().Before(deadline) {
+			if _, busy, _ := s.snapshot(); !busy {
+				break
+			}
+			time.Sleep(50 * time.Microsecond)
+		}
 	}
 	return &s.trace
 }
@@ -350,7 +386,20 @@ func (s *Sched) settle(released *thread) bool {
 		}
 	}
 	spins := 0
+	t0 := time.Now()
+	defer func() { s.trace.SettleNs += int64(time.Since(t0)) }()
+	if released != nil {
+		// cheap first: the released participant usually parks or finishes at once;
+		// the snapshot afterwards confirms that nothing else is running either
+		for i := 0; i < 2000; i++ {
+			if st := atomic.LoadInt32(&released.state); st == stParked || st == stDone {
+				break
+			}
+			runtime.Gosched()
+		}
+	}
 	for {
+		s.trace.Snapshots++
 		// drain notifications
 		for {
 			select {
